@@ -45,6 +45,10 @@ XPct(a, b) ==
     ELSE IF a = PINFM THEN EInf(Sgn(b)) ELSE IF a = NINFM THEN EInf(0 - Sgn(b))
     ELSE EQ(QN(a - b, b))
 
+\* The value 0 has two encodings in a float type (+0.0 and -0.0, which compare equal): every definition here is a
+\* function of the VALUE, so the sign of a zero changes no result - in particular a zero base of a percentage
+\* change is a zero base whatever its sign (the replay writes every zero of a case as -0.0 in a second pass).
+ZeroSignFree == \A b \in {0} : XPct(1, b) = ENull /\ XPct(0 - 1, b) = ENull
 \* x[i] - x[i-n] where both operands exist and are non-null; the fill value where the lagged
 \* operand does not exist; null where an existing operand is null
 DefDiff(s, n, fill) ==
